@@ -17,8 +17,8 @@ import (
 
 // progCase is the replayable form of a program-based case.
 type progCase struct {
-	Files []string `json:"files"`         // Go source text, one entry per file
-	XGo   bool     `json:"xgo,omitempty"` // XGo-builtin configuration
+	Files []string `json:"files"`          // Go source text, one entry per file
+	XGo   bool     `json:"xgo,omitempty"`  // XGo-builtin configuration
 	Bare  bool     `json:"bare,omitempty"` // no NodeInterpreter, no recorder, no big-number types
 	Note  string   `json:"note,omitempty"`
 }
